@@ -35,7 +35,7 @@ def steps_of(g, path):
         elif name == "SendFiltered":
             out.append({"op": "filtered", "f": sorted(a[0])})
         elif name == "SReqStart":
-            out.append({"op": "sreq_start", "s": a[0], "r": a[1]})
+            out.append({"op": "sreq_start", "s": a[0], "r": a[1], "id": a[2]})
         elif name == "ClientAnswer":
             out.append({"op": "answer", "s": a[0], "r": a[1]})
         elif name == "SReqReturn":
@@ -144,7 +144,7 @@ def trace_of(g, path, steps, res):
     for k, st in enumerate(steps):
         o = res["obs"][k]
         e = {"e": st["op"]}
-        for f in ("s", "r", "f"):
+        for f in ("s", "r", "f", "id"):
             if f in st:
                 e[f] = st[f]
         if st["op"] == "notif":
